@@ -81,6 +81,7 @@ pub const FAIL_KINDS: &[&str] = &[
     "error-in-macro",
     "pc-at-parse-time",
     "include-in-macro",
+    "label-twice-in-macro",
 ];
 
 /// Devices used by generated programs: (name, forbids mul, forbids jmp, avr8l, flash words, ram, eeprom)
@@ -151,6 +152,10 @@ struct Gen<'a> {
     defs: Vec<(String, u32)>,
     defines: Vec<String>,
     macros: Vec<(String, usize)>, // (name, nparams)
+    /// macros whose body defines a label: they can be called once (a second expansion would
+    /// define the label again), and those already called
+    once_macros: Vec<String>,
+    once_called: Vec<String>,
     device: Option<usize>,
     region: usize,
     seg: u8, // 0 code 1 data 2 eeprom
@@ -555,6 +560,18 @@ impl<'a> Gen<'a> {
         if self.opts.messages && self.r.chance(1, 3) {
             l.push(self.msg("message"));
         }
+        // a label inside the body (a loop), named in a message of the body now and then: what
+        // the label is called is visible to the user (messages, error texts)
+        if self.r.chance(1, 4) {
+            let lab = format!("ml{}_{}", self.pool.tag, self.uniq);
+            self.uniq += 1;
+            l.insert(1, format!("{}:", lab));
+            l.push(format!("    brne {}", lab));
+            if self.opts.messages && self.r.chance(1, 2) {
+                l.push(format!(".message \"{}{} loops at {}\"", self.opts.msg_tag, n, lab));
+            }
+            self.once_macros.push(n.clone());
+        }
         // the expansion depends on facts of the build it is expanded in: a define, the value of
         // a (parse-time constant) .equ
         match self.r.below(6) {
@@ -587,6 +604,12 @@ impl<'a> Gen<'a> {
             return self.code_block();
         }
         let (n, np) = self.macros[self.r.usize(self.macros.len())].clone();
+        if self.once_macros.contains(&n) {
+            if self.once_called.contains(&n) {
+                return self.code_block();
+            }
+            self.once_called.push(n.clone());
+        }
         self.words_upper += 8;
         let line = match np {
             0 => format!("    {}", n),
@@ -677,6 +700,8 @@ pub fn gen(r: &mut Rng, pool: &Pool, opts: &GenOpts) -> Program {
         defs: vec![],
         defines: vec![],
         macros: vec![],
+        once_macros: vec![],
+        once_called: vec![],
         device: None,
         region: 0,
         seg: 0,
@@ -814,6 +839,11 @@ pub fn gen(r: &mut Rng, pool: &Pool, opts: &GenOpts) -> Program {
                     Node::Lines(vec![format!("    i{}m", pool.tag)]),
                 ]
             }
+            // the same label twice in one macro body: the error names the label as the user wrote it
+            "label-twice-in-macro" => vec![
+                Node::Macro(vec![format!(".macro d{}l", pool.tag), format!("dl{}:", pool.tag), "    nop".to_string(), format!("dl{}:", pool.tag), "    ret".to_string(), ".endm".to_string()]),
+                Node::Lines(vec![format!("    d{}l", pool.tag)]),
+            ],
             "error-in-macro" => vec![
                 Node::Macro(vec![format!(".macro e{}rr", pool.tag), "    nop".to_string(), format!(".error \"{}in macro\"", opts.msg_tag), ".endm".to_string()]),
                 Node::Lines(vec![format!("    e{}rr", pool.tag)]),
